@@ -36,7 +36,7 @@ FU = 'utils.func_utils'
 
 
 def run(ctx: Ctx):
-  for r in (r1, r2, r3, r4, r5, r6, r7, r8, r9, r10, r11, r12, r13, r14):
+  for r in (r16, r1, r2, r3, r4, r5, r6, r7, r8, r9, r10, r11, r12, r13, r14, r15):
     ctx.guard(r)
 
 
@@ -865,11 +865,103 @@ def _within(node, root):
   return any(y is node for y in ast.walk(root))
 
 
+def r15(ctx: Ctx):
+  rule = 'R-C17-15'
+  ctx.rule(rule, '"evaluates to what the eager expression would ... also after a serialisation round trip": every value passes the'
+           ' maker registry on its way (`makeables[type(x)]`), so the registry must find a maker for exactly the registered'
+           ' class and for that class again after it was pickled BY VALUE to another process (a class of __main__ is rebuilt'
+           ' as a new type object there). The writer (`register`) and the reader (`__getitem__`) of _Makers key the table'
+           ' with the same expression, and that expression is `repr(<type>)` — module-qualified text: the bare type object'
+           ' misses the rebuilt class, `__qualname__` / `__name__` alone collide for same-named classes of other modules'
+           ' (a plain value is then handed to a foreign maker)')
+  ci = ctx.repo.cls(LF, '_Makers')
+  reg, get = ci.methods.get('register'), ci.methods.get('__getitem__')
+  if reg is None or get is None:
+    raise AnalysisError(f'{rule}: _Makers.register / __getitem__ not found')
+  def key_of(fi, writer):
+    p = fi.params()[1]
+    for x in ast.walk(fi.node):
+      if writer and isinstance(x, ast.Assign) and isinstance(x.targets[0], ast.Subscript) and unparse(x.targets[0].value) == 'self.data':
+        return x.targets[0].slice, p
+      if not writer and isinstance(x, ast.Call) and unparse(x.func) in ('self.data.get',) and x.args:
+        return x.args[0], p
+      if not writer and isinstance(x, ast.Subscript) and unparse(x.value) == 'self.data' and isinstance(x.ctx, ast.Load):
+        return x.slice, p
+    raise AnalysisError(f'{rule}: cannot find the table access of _Makers.{fi.name}')
+  (kw, pw), (kr, pr) = key_of(reg, True), key_of(get, False)
+  norm = lambda k, p: unparse(k).replace(p, '<T>')
+  n = 2
+  same = norm(kw, pw) == norm(kr, pr)
+  what = '_Makers: register and __getitem__ key the table with the same expression'
+  if same:
+    ctx.ok(rule, reg, what, kw)
+  else:
+    ctx.fail(rule, reg, what, f'register keys with `{unparse(kw)}`, __getitem__ looks up `{unparse(kr)}`: registered makers are never found',
+             node=kw)
+  what = '_Makers: the key is the module-qualified text of the type (repr)'
+  for k, p, fi in ((kw, pw, reg), (kr, pr, get)):
+    if norm(k, p) == 'repr(<T>)':
+      continue
+    ctx.fail(rule, fi, what,
+             f'_Makers.{fi.name} keys the registry with `{unparse(k)}`: ' + (
+                 'the type OBJECT is another one after the class was pickled by value to a server — its maker is not found'
+                 ' there and the expression is evaluated with the un-made value' if norm(k, p) == '<T>' else
+                 'that text is not module-qualified (or not a function of the type alone): a same-named class of another'
+                 ' module shares the key, and a plain value of that class is handed to the foreign maker'), node=k)
+    break
+  else:
+    ctx.ok(rule, reg, what, kw)
+  ctx.floor(rule, 2, n)
+
+
+def r16(ctx: Ctx):
+  rule = 'R-C17-16'
+  ctx.rule(rule, '"a cached call evaluates once ... also after a serialisation round trip": `__hash__` of the lazy classes is PURE —'
+           ' it stores nothing on the instance (no `self.__dict__[...] = `, no object.__setattr__, no attribute store). The'
+           ' hash of an expression depends on the interpreter (string hash seed, object ids); `__getstate__` ships the'
+           ' instance dict, so a memoised hash travels with the pickle and the shipped expression hashes differently from'
+           ' the equal expression built on the server: two cache entries, the cached call is evaluated twice')
+  mi = ctx.repo.module(LF)
+  n = 0
+  for ci in mi.classes.values():
+    fi = ci.methods.get('__hash__')
+    if fi is None:
+      continue
+    n += 1
+    bad = None
+    for x in ast.walk(fi.node):
+      if isinstance(x, (ast.Assign, ast.AugAssign, ast.AnnAssign)):
+        for t in (x.targets if isinstance(x, ast.Assign) else [x.target]):
+          for y in ast.walk(t):
+            if isinstance(y, (ast.Attribute, ast.Subscript)) and any(isinstance(z, ast.Name) and z.id == 'self' for z in ast.walk(y)):
+              bad = x
+      if isinstance(x, ast.Call) and (unparse(x.func).endswith('__setattr__') or unparse(x.func) in ('setattr',) or (
+          isinstance(x.func, ast.Attribute) and x.func.attr in ('setdefault', 'update') and 'self' in unparse(x.func.value))):
+        bad = x
+    what = f'{ci.name}.__hash__ stores nothing on the instance'
+    if bad is not None:
+      ctx.fail(rule, fi, what,
+               f'`{unparse(bad)[:70]}` memoises the hash on the instance: the memo is pickled with the expression and is wrong in'
+               ' the receiving interpreter — equal expressions no longer share a cache entry there', node=bad)
+    else:
+      ctx.ok(rule, fi, what, fi.node)
+  ctx.floor(rule, 1, n)
+
+
 from mlmverif.selfcheck import B, OK  # noqa: E402
 
 _L = 'chainables/lazy_fns.py'
 _F = 'utils/func_utils.py'
 VARIANTS = [
+    B('makers-keyed-by-the-type-object', 'chainables/lazy_fns.py',
+      "    self.data[repr(type_)] = maker", "    self.data[type_] = maker", 'R-C17-15',
+      extra=(('chainables/lazy_fns.py', "    return self.data.get(repr(type_), None)", "    return self.data.get(type_, None)"),)),
+    B('makers-keyed-by-qualname', 'chainables/lazy_fns.py',
+      "    self.data[repr(type_)] = maker", "    self.data[type_.__qualname__] = maker", 'R-C17-15',
+      extra=(('chainables/lazy_fns.py', "    return self.data.get(repr(type_), None)", "    return self.data.get(type_.__qualname__, None)"),)),
+    B('hash-memoised-in-the-instance-dict', 'chainables/lazy_fns.py',
+      "    try:\n      return hash((self.value, self.args, self.kwargs))\n    except TypeError:\n      return hash(self.id)",
+      "    if '_hash' in self.__dict__:\n      return self.__dict__['_hash']\n    try:\n      result = hash((self.value, self.args, self.kwargs))\n    except TypeError:\n      result = hash(self.id)\n    self.__dict__['_hash'] = result\n    return result", 'R-C17-16'),
     B('cache-miss-evaluated-under-a-plain-lock', 'chainables/lazy_fns.py',
       "    lazy_obj_cache = func_utils.LruCache(maxsize=maxsize)\n", "    lazy_obj_cache = func_utils.LruCache(maxsize=maxsize)\n    import threading\n    cache_lock = threading.Lock()\n", 'R-C17-14',
       extra=(('chainables/lazy_fns.py', "            result = fn(x)\n            lazy_obj_cache[x] = result\n            return result",
